@@ -6,7 +6,6 @@ import (
 	"fmt"
 	"testing"
 
-	"golang.org/x/crypto/chacha20"
 	"golang.org/x/crypto/nacl/box"
 	"golang.org/x/crypto/nacl/secretbox"
 	"golang.org/x/crypto/nacl/sign"
@@ -112,7 +111,7 @@ func ovOps() []ovOp {
 		ops = append(ops, ovOp{name: fmt.Sprintf("chacha20.XORKeyStream/%d", len(nonce)), kind: ovStream, lens: streamLens, inLen: ident, outLen: ident,
 			input: func(msg, _ []byte) []byte { return msg },
 			callState: func(pre int, dst, in []byte) ([]byte, error) {
-				c, err := chacha20.NewUnauthenticatedCipher(ovKey, nonce)
+				c, scribble, err := newStream(ovKey, nonce)
 				if err != nil {
 					return nil, err
 				}
@@ -120,6 +119,7 @@ func ovOps() []ovOp {
 					// an earlier call on the same Cipher; may leave buffered key stream behind
 					first := make([]byte, pre)
 					c.XORKeyStream(first, first)
+					scribble()
 				}
 				c.XORKeyStream(dst, in)
 				return dst[:len(in)], nil
